@@ -61,7 +61,7 @@ def _one(args):
             importlib.import_module(f"sa.rules.{pid.lower()}").run(repo, res)
         except AnalysisError as e:
             err = str(e)
-        new = [k for k in res.keys() if k not in base_keys]
+        new = [k for k in res.keys3() if k not in base_keys]
         if v["expect"] == "fire":
             if v.get("rule"):
                 hit = [k for k in new if k[0] == v["rule"] or k[0].startswith(v["rule"])]
@@ -86,7 +86,7 @@ def _one(args):
 
 def run(pid, repo, res, jobs=16):
     vs = _collect(pid, repo)
-    base_keys = res.keys()
+    base_keys = res.keys3()
     work = [(pid, repo.root, v, base_keys) for v in vs]
     results = []
     if work:
